@@ -7,6 +7,19 @@ import os
 VERIF = os.path.dirname(os.path.dirname(os.path.abspath(__file__)))
 
 CHECKS = {
+    "C01": dict(
+        technique="runtime monitor: acceptance oracle (independent model computes the tag the specification defines for the RECEIVED key/nonce/AAD/ciphertext; library must accept iff the received tag equals it) over forged and re-authenticated tuples",
+        text=("For every case (mode, cipher, key, nonce, mac_len, AAD segments, plaintext) over the full parameter grids - GCM (AES-128/192/256, nonce 1..255 bytes, mac_len 4..16), "
+              "CCM (nonce 7..13, mac_len 4..16, lengths declared/undeclared, 2- and 6-byte AAD headers), EAX over six ciphers, SIV (32/48/64-byte keys, 0..4 components, with/without "
+              "nonce), OCB (nonce 1..15, mac_len 8..16), ChaCha20-Poly1305 (8/12/24-byte nonces), KW, KWP - the library's sealed tuple is compared with the model and then ~95 received "
+              "tuples are offered through every verification path (decrypt_and_verify, decrypt x n + verify, update + verify, hexverify in both cases, with and without output=, "
+              "re-verification after completion): bit flips of tag/ct/each AAD segment/nonce/key, every tag truncation, extensions, tag||tag, the untruncated tag on a short-tag "
+              "object, tags of neighbouring mac_len, all-zero/all-ones tags, ciphertext blocks swapped/rotated, AAD re-segmented (still valid) or moved into the ciphertext, splices "
+              "between messages, neighbouring nonces - each structural change offered with the original tag (must be rejected with ValueError) AND with the model-recomputed tag "
+              "(must be accepted and return the model plaintext).  KW/KWP: the model's raw wrap of every wrong ICV byte, length fields too large/small, 8+ bytes of padding, non-zero "
+              "padding, the one-block case; the library must accept iff the model unwrap accepts."),
+        note="Trusted: ref/modes.py + ref/ciphers.py (FIPS/RFC/NIST vectors, Wycheproof by the model alone). Messages <= 600 bytes quick, 1-64 KiB by composition in thorough; forgery by luck is not exercised.",
+        ref="DESIGN.md §4 C01"),
     "C02": dict(
         technique="runtime monitor: reference-model oracle (independent pure-Python ciphers and modes; model mode logic composed over the library's single-block ECB for bulk sizes; optional openssl CLI) over key/nonce/parameter/length grids",
         text=("Library ciphertexts and tags are compared byte for byte with ref/ciphers.py + ref/modes.py: single-block ECB of every cipher for every legal key size (AES with "
